@@ -595,69 +595,80 @@ def unionParent (E : Env) : Ty → Except Err (Key × Bool)
 
 def otherField : CField := { name := "other", ty := tyVoid }
 
+def structParentOpt (E : Env) : Option Ty → Except Err (Option Key)
+  | none => .ok none
+  | some t => match structParent E t with
+    | .ok k => .ok (some k)
+    | .error e => .error e
+
+def unionParentOpt (E : Env) : Option Ty → Except Err (Option (Key × Bool))
+  | none => .ok none
+  | some t => match unionParent E t with
+    | .ok p => .ok (some p)
+    | .error e => .error e
+
+def parentIsOpen : Option (Key × Bool) → Bool
+  | some (_, c) => !c
+  | none => false
+
+/-- what `_populate_union_type_attributes` hands to `set_attributes`: the catch-all `other` is appended for an open
+union that does not inherit one -/
+def unionCType (closed : Bool) (parent : Option (Key × Bool)) (fields : List CField) : CType :=
+  let catchAll := !closed && !parentIsOpen parent
+  { isStruct := false, closed := closed, parent := parent.map (·.1),
+    fields := if catchAll then fields ++ [otherField] else fields, catchAll := catchAll }
+
+/-- `_populate_struct_type_attributes` / `_populate_union_type_attributes` after the `extends` clause: the tests on
+the resolved parent `pty`, the members, `set_attributes` -/
+def populateStep (rx : String → Bool) (E : Env) (st1 : St) (key : Key) (d : TypeDecl) (pty : Option Ty) : Except Err St :=
+  match d.kind with
+  | .struct =>
+    (match structParentOpt E pty with
+     | .error e => .error e
+     | .ok parent =>
+       match mapFields (structField rx E st1.aliases key.1) d.fields with
+       | .error e => .error e
+       | .ok fields =>
+         setAttributes { st1 with nrefs := st1.nrefs ++ fields.flatMap (fun f => nullRefs f.ty) } key
+           { isStruct := true, parent := parent, fields := fields })
+  | .union closed =>
+    (match unionParentOpt E pty with
+     | .error e => .error e
+     | .ok parent =>
+       match mapFields (unionField rx E st1.aliases key.1) d.fields with
+       | .error e => .error e
+       | .ok fields =>
+         if closed && parentIsOpen parent then .error .closedExtendsOpen else
+         setAttributes { st1 with nrefs := st1.nrefs ++ fields.flatMap (fun f => nullRefs f.ty) } key
+           (unionCType closed parent fields))
+
 /-- `_populate_struct_type_attributes` / `_populate_union_type_attributes` for the type `key` (declared as `d`);
 `prog` = `_resolution_in_progress` (contains `key`). The parent is populated first when it is still a forward
 reference (`_resolve_type(.., enforce_fully_defined=True)`), in the environment of ITS namespace. -/
 def populate (rx : String → Bool) (E : Env) : Nat → List Key → St → Key → TypeDecl → Except Err St
   | 0, _, _, _, _ => .error .outOfFuel
   | fuel + 1, prog, st, key, d =>
-    -- extends
-    let parentStep : Except Err (St × Option Ty) :=
-      match d.extends with
-      | none => .ok (st, none)
-      | some r =>
-        match resolveW rx E st.aliases false key.1 r with
+    match d.extends with
+    | none => populateStep rx E st key d none
+    | some r =>
+      match resolveW rx E st.aliases false key.1 r with
+      | .error e => .error e
+      | .ok t =>
+        let st1 : Except Err St :=
+          match t with
+          | .user k =>
+            if (st.done.lookup k).isSome then .ok st
+            else if prog.contains k then .error .circular
+            else match E.items.lookup k with
+              | some (.type d') => populate rx E fuel (k :: prog) st k d'
+              | _ => .error .internal
+          | _ => .ok st
+        match st1 with
         | .error e => .error e
-        | .ok t =>
-          let st1 : Except Err St :=
-            match t with
-            | .user k =>
-              if (st.done.lookup k).isSome then .ok st
-              else if prog.contains k then .error .circular
-              else match E.items.lookup k with
-                | some (.type d') => populate rx E fuel (k :: prog) st k d'
-                | _ => .error .internal
-            | _ => .ok st
-          match st1 with
+        | .ok st1 =>
+          match wrapNull st1.aliases r.head.nullable t with
           | .error e => .error e
-          | .ok st1 =>
-            match wrapNull st1.aliases r.head.nullable t with
-            | .error e => .error e
-            | .ok t' => .ok ({ st1 with nrefs := st1.nrefs ++ nullRefs t' }, some t')
-    match parentStep with
-    | .error e => .error e
-    | .ok (st1, pty) =>
-      match d.kind with
-      | .struct =>
-        let parent : Except Err (Option Key) := match pty with
-          | none => .ok none
-          | some t => (structParent E t).map some
-        (match parent with
-         | .error e => .error e
-         | .ok parent =>
-           match mapFields (structField rx E st1.aliases key.1) d.fields with
-           | .error e => .error e
-           | .ok fields =>
-             setAttributes { st1 with nrefs := st1.nrefs ++ fields.flatMap (fun f => nullRefs f.ty) } key
-               { isStruct := true, parent := parent, fields := fields })
-      | .union closed =>
-        let parent : Except Err (Option (Key × Bool)) := match pty with
-          | none => .ok none
-          | some t => (unionParent E t).map some
-        (match parent with
-         | .error e => .error e
-         | .ok parent =>
-           match mapFields (unionField rx E st1.aliases key.1) d.fields with
-           | .error e => .error e
-           | .ok fields =>
-             let parentOpen := match parent with
-               | some (_, c) => !c
-               | none => false
-             if closed && parentOpen then .error .closedExtendsOpen else
-             let catchAll := !closed && !parentOpen
-             setAttributes { st1 with nrefs := st1.nrefs ++ fields.flatMap (fun f => nullRefs f.ty) } key
-               { isStruct := false, closed := closed, parent := parent.map (·.1),
-                 fields := if catchAll then fields ++ [otherField] else fields, catchAll := catchAll })
+          | .ok t' => populateStep rx E { st1 with nrefs := st1.nrefs ++ nullRefs t' } key d (some t')
 
 /-- the declarations of a namespace, files in command-line order -/
 def declsOf (fs : List File) (ns : String) : List Decl :=
@@ -824,12 +835,18 @@ def setEnumerated (st : St) (self : Key) (c : CType) (fields : List (String × K
     if fields.isEmpty then .error (.crash .assertionError) else      -- `assert len(self._enumerated_subtypes) > 0`
     if (subtypesOf st self).any (fun k => !seen.contains k.2) then .error .missingSubtype else .ok ()
 
+/-- `isinstance(data_type, Struct) and data_type._ast_node.subtypes` -/
+def enumOf (d : TypeDecl) : Option (List (String × TRef) × Bool) :=
+  match d.kind with
+  | .struct => d.subtypes
+  | _ => none
+
 /-- first loop over the data types of one namespace -/
 def enumFirst (rx : String → Bool) (E : Env) (st : St) (ns : String) (en : EnumMap) : List TypeDecl → Except Err EnumMap
   | [] => .ok en
   | d :: ds =>
-    match d.kind, d.subtypes with
-    | .struct, some (subs, catchAll) =>
+    match enumOf d with
+    | some (subs, catchAll) =>
       (match st.done.lookup (ns, d.name) with
        | none => .error .internal
        | some c =>
@@ -839,7 +856,7 @@ def enumFirst (rx : String → Bool) (E : Env) (st : St) (ns : String) (en : Enu
            match setEnumerated st (ns, d.name) c fields with
            | .error e => .error e
            | .ok () => enumFirst rx E st ns (((ns, d.name), (fields, catchAll)) :: en) ds)
-    | _, _ => enumFirst rx E st ns en ds
+    | none => enumFirst rx E st ns en ds
 
 def hasEnum (en : EnumMap) (k : Key) : Bool :=
   match en.lookup k with
@@ -1088,6 +1105,11 @@ def isOpenUnion (fs : List File) (k : Key) : Bool :=
   | some (.type d) => d.kind == .union false
   | _ => false
 
+/-- does a union with this parent inherit the catch-all tag? -/
+def inheritsOther (fs : List File) : Option Key → Bool
+  | some p => isOpenUnion fs p
+  | none => false
+
 /-- "A union inherits all of the options of the parent type": an open union gets the virtual tag `other` unless it
 inherits it from an open parent -/
 def denoteType (rx : String → Bool) (fs : List File) (ns : String) (d : TypeDecl) : Option CType :=
@@ -1096,10 +1118,7 @@ def denoteType (rx : String → Bool) (fs : List File) (ns : String) (d : TypeDe
     (match d.kind with
      | .struct => some { isStruct := true, parent := parent, fields := fields }
      | .union closed =>
-       let inherits := match parent with
-         | some p => isOpenUnion fs p
-         | none => false
-       let catchAll := !closed && !inherits
+       let catchAll := !closed && !inheritsOther fs parent
        some { isStruct := false, closed := closed, parent := parent,
               fields := if catchAll then fields ++ [otherField] else fields, catchAll := catchAll })
   | _, _ => none
@@ -1110,14 +1129,17 @@ def denoteRoute (rx : String → Bool) (fs : List File) (ns : String) (r : Route
                                       deprecated := r.deprecated }
   | _, _, _ => none
 
+/-- the subtype a tag of an enumerated-subtypes block names -/
+def subDen (rx : String → Bool) (fs : List File) (ns : String) (p : String × TRef) : Option (String × Key) :=
+  match denoteRef rx fs ns p.2 with
+  | some (.user k) => some (p.1, k)
+  | _ => none
+
 def denoteEnum (rx : String → Bool) (fs : List File) (ns : String) (d : TypeDecl) :
     Option (Option (String × (List (String × Key) × Bool))) :=
-  match d.kind, d.subtypes with
-  | .struct, some (subs, catchAll) =>
-    (optMapM (fun (p : String × TRef) => match denoteRef rx fs ns p.2 with
-        | some (.user k) => some (p.1, k)
-        | _ => none) subs).map fun l => some (d.name, (l, catchAll))
-  | _, _ => some none
+  match enumOf d with
+  | some (subs, catchAll) => (optMapM (subDen rx fs ns) subs).map fun l => some (d.name, (l, catchAll))
+  | none => some none
 
 /-- the namespaces of a set of files, in order of first mention -/
 def nsNames : List File → List String → List String
